@@ -513,8 +513,8 @@ class Gen:
                     built[id(it[1])] = self.emit_params(it[1], tk)
         walk(inner)
 
-        def chain(base_node, dquals):
-            t = N("TypeDecl", [S(name) if name is not None else NONE, strs(dquals), NONE, base_node], name_idx[0])
+        def chain(base_node, dquals, start=None):
+            t = start if start is not None else N("TypeDecl", [S(name) if name is not None else NONE, strs(dquals), NONE, base_node], name_idx[0])
             for kind, d in reversed(nodes):
                 if kind == "ptr":
                     t = N("PtrDecl", [strs(d), t])
@@ -604,6 +604,21 @@ class Gen:
 
     def emit_typename(self, tn, tk):
         b, ders, quals = tn
+        if b[0] == "atomic":
+            # _Atomic ( type-name ) as the specifier of a type name: the same tree as the _Atomic-QUALIFIED inner type
+            # (C11 6.7.2.4: the specifier designates the atomic version of the named type), with the outer derivations on top
+            tk.adds("_Atomic", "(")
+            ib, iders, _q = b[1]
+            ibn = self.emit_base(ib, tk)
+            ichain, _ = self.emit_declarator(iders, None, tk)
+            tk.add(")")
+            ochain, _ = self.emit_declarator(ders, None, tk)
+            if not iders:
+                return N("Typename", [NONE, strs(["_Atomic"]), NONE, ochain(ibn, ["_Atomic"])])
+            inner = ichain(ibn, [])
+            assert inner[1] == "PtrDecl"
+            inner = N("PtrDecl", [strs(list(iders[0][1]) + ["_Atomic"]), inner[2][1]])     # the outermost pointer of the inner type is the atomic object
+            return N("Typename", [NONE, strs([]), NONE, ochain(None, [], start=inner)])
         for q in quals:
             tk.add(q)
         bn = self.emit_base(b, tk)
